@@ -21,7 +21,8 @@ core.register("C03", "Props.C03", "theories/Props/C03.vo", ["C03_prefix", "C03_n
 core.register("C05", "Props.C05", "theories/Props/C05.vo",
               ["C05_refuted_gap", "C05_recovers_outside_known", "C05_process_crash_is_image",
                "C05_recovers_outside_known_from", "C05_open_dir_whole", "C05_from_nonvacuous", "C05_reboot_next_instance",
-               "C05_crash_image_chained_from", "C05_recovers_again", "C05_recovers_outside_known_from_any_marks"])
+               "C05_crash_image_chained_from", "C05_recovers_again", "C05_recovers_outside_known_from_any_marks",
+               "C05_crash_image_chained_any", "C05_recovers_again_any"])
 core.register("C07", "Props.C07", "theories/Props/C07.vo",
               ["C07_refuted_live", "C07_reads_total_outside_known", "C07_boundary_in_force_is_not_enough",
                "C07_reads_total_outside_known_L2", "C07_restart_reads_total", "C07_restart_continue", "C07_restart_refuted",
